@@ -34,27 +34,34 @@ type ModSpec struct {
 }
 
 type Contract struct {
-	Key         string
-	Trusted     bool // assumed, not verified (external or environment)
-	Pure        bool
-	Inline      bool // only loop annotations; body is inlined at call sites
-	NoEffect    bool
-	Params      []string
-	Requires    []Clause
-	Ensures     []Clause
-	Mods        []ModSpec
-	HasMods     bool
-	Loops       map[int][]Clause
-	Asserts     []Clause
-	Decreases   *Clause
-	Decreases2  *Clause // second component of a lexicographic measure
-	Src         string
-	NoVerify    bool // repo contract assumed but body not verified (listed in evidence)
-	Props       []string
-	RecGroup    string
-	Monitors    []Monitor
-	Dead        []string // program points that are unreachable by design (e.g. under a trusted spec)
-	Forbid      []string // callees that must not be called (directly or in inlined code)
+	Key        string
+	Trusted    bool // assumed, not verified (external or environment)
+	Pure       bool
+	Inline     bool // only loop annotations; body is inlined at call sites
+	NoEffect   bool
+	Params     []string
+	Requires   []Clause
+	Ensures    []Clause
+	Mods       []ModSpec
+	HasMods    bool
+	Loops      map[int][]Clause
+	Asserts    []Clause
+	Decreases  *Clause
+	Decreases2 *Clause // second component of a lexicographic measure
+	Src        string
+	NoVerify   bool // repo contract assumed but body not verified (listed in evidence)
+	Props      []string
+	RecGroup   string
+	Monitors   []Monitor
+	Invokes    []Invoke // "invokes f when cond": the callee calls its function argument f (once) iff cond
+	Dead       []string // program points that are unreachable by design (e.g. under a trusted spec)
+	Forbid     []string // callees that must not be called (directly or in inlined code)
+}
+
+type Invoke struct {
+	Param string
+	Cond  ast.Expr
+	Text  string
 }
 
 type Monitor struct {
@@ -78,7 +85,7 @@ type ContractDB struct {
 	SpecFns  map[string]*SpecFn
 	PurePkgs map[string]bool
 	NoEffect map[string]bool
-	Prelude  []string // raw smt2 text chunks
+	Prelude  []string          // raw smt2 text chunks
 	LitNames map[string]string // string literal -> prelude constant name
 	LitOrder []string
 	Files    []string
@@ -338,6 +345,19 @@ func parseClause(c *Contract, word, rest, src string) error {
 		c.Props = strings.Fields(rest)
 	case "recgroup":
 		c.RecGroup = strings.TrimSpace(rest)
+	case "invokes":
+		// invokes f when cond
+		name, r := splitWord(rest)
+		inv := Invoke{Param: name, Text: rest}
+		r = strings.TrimSpace(r)
+		if strings.HasPrefix(r, "when ") {
+			e, err := parseSpecExpr(strings.TrimSpace(r[5:]))
+			if err != nil {
+				return err
+			}
+			inv.Cond = e
+		}
+		c.Invokes = append(c.Invokes, inv)
 	case "monitor":
 		// monitor g[k] := expr   -- a specification-only record of what the call concluded
 		i := strings.Index(rest, ":=")
